@@ -65,3 +65,5 @@ fn kf_tree_f32_subnormal_total_panics() {
     let r = t.try_sample(&mut rng);
     kani::assert(r.is_ok(), "is_valid() implies try_sample succeeds");
 }
+
+// (a bounded unit for WeightedAliasIndex<f32> on 2-vectors was tried and did not finish in 60 min: float alias tables are not reached)
